@@ -1,6 +1,8 @@
-/-! Driver entry for property C11 (stub: not implemented yet). -/
+import HeartwoodModel.Driver.C10
+/-! Driver entry for C11: same model (`Model/Gossip.lean`), case syntax and canonical output as C10
+(see `Driver/C10.lean`). -/
 namespace HeartwoodModel.Driver.C11
 
-def run (_args : List String) : String := "unimplemented"
+def run (args : List String) : String := HeartwoodModel.Driver.C10.runGossip args
 
 end HeartwoodModel.Driver.C11
